@@ -11,6 +11,7 @@ pub mod c07;
 pub mod c08;
 pub mod c09;
 pub mod c10;
+pub mod c10_lab;
 pub mod c11;
 pub mod c12;
 pub mod c13;
@@ -19,6 +20,7 @@ pub mod c15;
 pub mod c15_conn;
 pub mod c16;
 pub mod c17;
+pub mod c17_lab;
 pub mod c18;
 pub mod c18_lab;
 pub mod c19;
